@@ -85,7 +85,7 @@ def _run_rules(prop: str, overlay: Dict[str, str]) -> Tuple[str, List[str]]:
     try:
         mod.run(prog, rep)
     except AnalysisError as e:
-        return "ANALYSIS-ERROR", [str(e)]
+        rep.error(str(e))           # as in main.run_property: a violation recorded before the anchor was lost still counts
     from .report import load_known
     known = load_known().get(prop, {})
     viol = [i for i in rep.instances if i.verdict == VIOLATION and i.key not in known]
